@@ -23,7 +23,7 @@ def _Facts(base, wf=None, task=None):
         f.task = task
         if set(f.task_statuses()) != set(base.task_statuses()):
             f._leaves = {k: v for k, v in base._leaves.items() if k != "wf.task"}
-            for attr in ("_wf_task_meaning", "_wf_task_summ"):
+            for attr in ("_wf_task_meaning", "_wf_task_summ", "_wf_task_summ_rows"):
                 f.__dict__.pop(attr, None)
     return f
 
